@@ -326,6 +326,53 @@ Theorem C02_edit_in_place : forall (file : list Z) off n ps i (rec : list Z),
 Proof. exact edit_in_place. Qed.
 Print Assumptions C02_edit_in_place.
 
+(* ---------------- a record handed to a header that was not made from it ---------------- *)
+
+(* LasWriter.write_points, LasAppender.append_points, LasData(header, points) and the LasData.points setter refuse a record
+   whose point format is not PointFormat.__eq__ to the header's before anything of it is stored (read from the source on
+   every run: Gen/GenC02.v handover_guards, point_format_eq, dim_info_eq) *)
+Theorem C02_handover_guarded :
+  handover_guards = ["LasWriter.write_points"; "LasAppender.append_points"; "LasData.__init__"; "LasData.points"]%string.
+Proof. exact handover_guards_all. Qed.
+Print Assumptions C02_handover_guarded.
+
+(* what such a hand-over accepts: the header's point format id and, POSITION BY POSITION, the header's extra dimensions —
+   same name, kind, width and number of elements (hence the same Extra Bytes descriptors, in the same order), numerically
+   the same scales and offsets.  The same set of dimensions in another order, a type of equal size, a different name or
+   other scales never pass. *)
+Theorem C02_accepted_record_same_layout : forall hid hdims rid rdims, handover_accepts hid hdims rid rdims = true ->
+  hid = rid /\ map dim_shape hdims = map dim_shape rdims /\ map dim_name hdims = map dim_name rdims
+  /\ ebs_of_dims hdims = ebs_of_dims rdims /\ Forall2 same_scaling rdims hdims.
+Proof. exact accepted_record_same_layout. Qed.
+Print Assumptions C02_accepted_record_same_layout.
+
+(* ... so the bytes of an accepted record — laid out by the record's OWN dimensions, stored as they are — are read back by the
+   specification's decoder, under the descriptors the HEADER declares in the file, as the values that were assigned; the
+   names line up: what was assigned through a named dimension is found under that name *)
+Theorem C02_accepted_record_decodes : forall hid hdims rid rdims ebs vals bs, 0 <= hid <= 10 ->
+  handover_accepts hid hdims rid rdims = true ->
+  ebs_of_dims rdims = Some ebs -> gen_enc_point rid ebs vals = Ok bs ->
+  ebs_of_dims hdims = Some ebs /\ map dim_name hdims = map dim_name rdims /\ spec_dec_point hid ebs bs = Ok vals.
+Proof. exact accepted_record_decodes. Qed.
+Print Assumptions C02_accepted_record_decodes.
+
+(* ---------------- assignments into the elements of an extra dimension ---------------- *)
+
+(* whatever the key (whole dimension, [:, k], [mask, k], [index list, k], [i, k], [slice, slice], whole points, a sub-view) and
+   the form of the value, an assignment names distinct (point, element) positions with a stored value each: afterwards each
+   of them holds its value, every other element of every point is what it was, the shape is unchanged *)
+Theorem C02_element_assignment : forall (g : grid) (sel : list (nat * nat * Z)), NoDup (map sel_pos sel) ->
+  (forall i k v, In (i, k, v) sel -> (i < length g)%nat -> (k < length (nth i g []))%nat -> get_elem (assign_elems g sel) i k = v)
+  /\ (forall i k, ~ In (i, k) (map sel_pos sel) -> get_elem (assign_elems g sel) i k = get_elem g i k)
+  /\ map (@length Z) (assign_elems g sel) = map (@length Z) g.
+Proof. exact element_assignment. Qed.
+Print Assumptions C02_element_assignment.
+
+(* assignments made one after the other *)
+Theorem C02_element_assignments_compose : forall a g b, assign_elems g (a ++ b) = assign_elems (assign_elems g a) b.
+Proof. exact assign_elems_app. Qed.
+Print Assumptions C02_element_assignments_compose.
+
 (* a format-6 record with one int16[2] extra dimension: every bit field at its maximum, signed extremes, a NaN payload
    in gps_time; 34 bytes; the laspy-layout encoder and the specification's decoder; an out-of-range return number refused *)
 Example C02_nonvacuous :
@@ -347,5 +394,21 @@ Example C02_nonvacuous :
   /\ append_session [9; 9; 1; 2; 7; 7; 7] 2 1 2 2 0 0 [[[3; 4]]; []; [[5; 6]]] = [9; 9; 1; 2; 3; 4; 5; 6]
   /\ append_session [9; 9; 1; 2; 7; 7; 7; 7; 7; 7] 2 1 2 4 0 0 [[[3; 4]]] = [9; 9; 1; 2; 3; 4; 7; 7; 7; 7]
   /\ record_at [9; 9; 1; 2; 3; 4; 5; 6] 2 2 2 = [5; 6]
-  /\ edit_record [9; 9; 1; 2; 3; 4; 7] 2 2 1 [8; 8] = [9; 9; 1; 2; 8; 8; 7].
+  /\ edit_record [9; 9; 1; 2; 3; 4; 7] 2 2 1 [8; 8] = [9; 9; 1; 2; 8; 8; 7]
+  (* a header that declares (amplitude: uint16, reflectance: float32): a record with the same list is taken; the same set in the
+     other order, an int16 amplitude, a reflectance with a scale are refused; the descriptors are data_type 3 and 9, five
+     unsigned bytes are data_type 0 with options 5 *)
+  /\ (let amp := ("amplitude"%string, 1, 16, 1, false, ""%string, @None (list Z), @None (list Z)) in
+      let refl := ("reflectance"%string, 2, 32, 1, false, ""%string, @None (list Z), @None (list Z)) in
+      handover_accepts 3 [amp; refl] 3 [amp; refl] = true /\ handover_accepts 3 [amp; refl] 3 [refl; amp] = false
+      /\ handover_accepts 3 [amp; refl] 1 [amp; refl] = false /\ handover_accepts 3 [amp; refl] 3 [amp] = false
+      /\ handover_accepts 3 [amp; refl] 3 [("amplitude"%string, 0, 16, 1, false, ""%string, None, None); refl] = false
+      /\ handover_accepts 3 [amp; ("r"%string, 1, 32, 1, false, ""%string, Some [0], Some [0x3FE0000000000000])] 3
+                             [amp; ("r"%string, 1, 32, 1, false, ""%string, Some [0], Some [0x3FF0000000000000])] = false
+      /\ handover_accepts 3 [amp; ("r"%string, 1, 32, 1, false, ""%string, Some [0x8000000000000000], Some [0x3FE0000000000000])] 3
+                             [amp; ("r"%string, 1, 32, 1, false, ""%string, Some [0], Some [0x3FE0000000000000])] = true
+      /\ ebs_of_dims [amp; refl; ("raw"%string, 1, 40, 5, false, ""%string, None, None)]
+         = Some [("amplitude"%string, 3, 0); ("reflectance"%string, 9, 0); ("raw"%string, 0, 5)])
+  (* normal[mask, 1] = .. then normal[[1], 0] = .. on three points of int16[3] *)
+  /\ assign_elems [[1; 2; 3]; [4; 5; 6]; [7; 8; 9]] [(0%nat, 1%nat, 20); (2%nat, 1%nat, 80); (1%nat, 0%nat, 40)] = [[1; 20; 3]; [40; 5; 6]; [7; 80; 9]].
 Proof. vm_compute. repeat split; reflexivity. Qed.
